@@ -61,8 +61,8 @@ Print Assumptions c12_one_outstanding.
    Own reply: every answered completion of request k was built only from answers that the underlying
    controller produced for dispatches of request k (c_from: the ids of the dispatches whose answers
    were consumed, recorded by the mock when it answers), and if it carries a response its parameter
-   data is the concatenation of exactly those answers' data, each of which carries the tag k the mock
-   put in front when answering a dispatch of k.
+   data is the concatenation of exactly those answers' data, each of which is empty or carries the tag
+   k the mock put in front when answering a dispatch of k.
    A submission is rejected exactly when the number of accepted, uncompleted requests has reached
    the limit (h_open is the harness' own count, g_rj counts disagreements).
    And at every instant of every history no request has completed twice and the queued requests
@@ -77,10 +77,14 @@ Theorem c12_once_in_order :
      Forall (fun c => c_kind c = K_ANSWERED ->
                c_from c <> [] /\ Forall (fun x => x = c_id c) (c_from c) /\
                match r_resp (c_reply c) with
-               | Some rs => rs_data rs = concat (c_parts c) /\
-                            Forall (fun p => exists d, p = c_id c :: d) (c_parts c) /\ c_parts c <> [] /\
+               | Some rs => rs_data rs = concat (map rs_data (c_parts c)) /\
+                            Forall (fun p => rs_data p = [] \/ exists d, rs_data p = c_id c :: d) (c_parts c) /\ c_parts c <> [] /\
+                            (Forall (fun p => rs_src p = rs_src rs /\ rs_cc p = rs_cc rs) (c_parts c) /\
+                             (forall f, hd_error (c_parts c) = Some f -> rs_pid rs = rs_pid f) /\
+                             (forall l, hd_error (rev (c_parts c)) = Some l -> rs_mc rs = rs_mc l)) /\
                             ((2 <= length (c_parts c))%nat ->
-                             len (rs_data rs) <= MAX_OVERFLOW_SIZE /\ rs_type rs = RDM_ACK)
+                             len (rs_data rs) <= MAX_OVERFLOW_SIZE /\ rs_type rs = RDM_ACK /\
+                             (rs_cc rs = GET_COMMAND_RESPONSE \/ rs_cc rs = SET_COMMAND_RESPONSE))
                | None => True
                end) (g_done f)) /\
   (forall max discov ms ds s ag,
@@ -100,8 +104,11 @@ Print Assumptions c12_once_in_order.
 
 (* ACK_OVERFLOW: at every instant of every history, every answered completion that carries a
    response has as parameter data the in-order concatenation of the parts it was built from (one
-   part per answer consumed, each an answer to a dispatch of that same request); a response built
-   from two or more parts is an RDM_ACK of at most MAX_OVERFLOW_SIZE (4096) bytes.  While a sequence
+   part per answer consumed, each an answer to a dispatch of that same request; a part may be empty,
+   e.g. the empty last ACK real responders send - the mock tags only non-empty data); it carries the
+   source UID and command class common to all parts, the PID of the first part and the message
+   count of the last part; a response built from two or more parts is an RDM_ACK (never
+   ACK_OVERFLOW) GET or SET response of at most MAX_OVERFLOW_SIZE (4096) bytes.  While a sequence
    is in progress the accumulator belongs to the request at the head of the queue and is the
    concatenation of the parts received so far; when no sequence is in progress nothing is
    accumulated.  (That a sequence yields exactly one completion - the combined response or a single
@@ -110,18 +117,27 @@ Theorem c12_overflow : forall max discov ms ds s ag,
   reachable max discov ms ds s ag ->
   Forall (fun c => c_kind c = K_ANSWERED ->
             match r_resp (c_reply c) with
-            | Some rs => rs_data rs = concat (c_parts c) /\
-                         Forall (fun p => exists d, p = c_id c :: d) (c_parts c) /\ c_parts c <> [] /\
+            | Some rs => rs_data rs = concat (map rs_data (c_parts c)) /\
+                         Forall (fun p => rs_data p = [] \/ exists d, rs_data p = c_id c :: d) (c_parts c) /\ c_parts c <> [] /\
+                         (Forall (fun p => rs_src p = rs_src rs /\ rs_cc p = rs_cc rs) (c_parts c) /\
+                          (forall f, hd_error (c_parts c) = Some f -> rs_pid rs = rs_pid f) /\
+                          (forall l, hd_error (rev (c_parts c)) = Some l -> rs_mc rs = rs_mc l)) /\
                          ((2 <= length (c_parts c))%nat ->
-                          len (rs_data rs) <= MAX_OVERFLOW_SIZE /\ rs_type rs = RDM_ACK)
+                          len (rs_data rs) <= MAX_OVERFLOW_SIZE /\ rs_type rs = RDM_ACK /\
+                          (rs_cc rs = GET_COMMAND_RESPONSE \/ rs_cc rs = SET_COMMAND_RESPONSE))
             | None => True
             end) (g_done s) /\
   (h_destroying s = false ->
   match s_resp s with
   | Some c => exists i cb rest, s_queue s = (i, cb) :: rest /\
-                rs_data c = concat (g_parts s) /\
-                Forall (fun p => exists d, p = i :: d) (g_parts s) /\ g_parts s <> [] /\
-                ((2 <= length (g_parts s))%nat -> len (rs_data c) <= MAX_OVERFLOW_SIZE /\ rs_type c = RDM_ACK)
+                rs_data c = concat (map rs_data (g_parts s)) /\
+                Forall (fun p => rs_data p = [] \/ exists d, rs_data p = i :: d) (g_parts s) /\ g_parts s <> [] /\
+                (Forall (fun p => rs_src p = rs_src c /\ rs_cc p = rs_cc c) (g_parts s) /\
+                 (forall f, hd_error (g_parts s) = Some f -> rs_pid c = rs_pid f) /\
+                 (forall l, hd_error (rev (g_parts s)) = Some l -> rs_mc c = rs_mc l)) /\
+                ((2 <= length (g_parts s))%nat ->
+                 len (rs_data c) <= MAX_OVERFLOW_SIZE /\ rs_type c = RDM_ACK /\
+                 (rs_cc c = GET_COMMAND_RESPONSE \/ rs_cc c = SET_COMMAND_RESPONSE))
   | None => g_parts s = [] /\ g_from s = []
   end).
 Proof.
@@ -166,20 +182,24 @@ Print Assumptions c12_paused.
    answered synchronously inside a completion callback, pause/resume around a request in flight,
    a full discovery with a callback and an incremental one with a NULL callback coalesced into one full
    run, a queue-full rejection and destruction with requests queued.  Requests 0,1,2 are answered
-   in order (1 with the concatenated, tagged overflow data), 5 is rejected, 3 and 4 are failed by the
+   in order (1 from an ACK_OVERFLOW part and an EMPTY final ACK: delivered as RDM_ACK with the data of
+   part 1, the PID of part 1 and the message count of the last part), 5 is rejected, 3 and 4 are failed by the
    destructor, whose run of 3's callback submits 6 (and calls Resume), whose callback submits 7 -
    both failed by the destructor too; one call outstanding at most, none sent while paused. *)
 Example c12_example :
-  let ack := mkReply 0 (Some (mkResp 0 1 33 0 [7])) 1 in
-  let ovf := mkReply 0 (Some (mkResp 3 1 33 0 [5])) 1 in
+  let ack := mkReply 0 (Some (mkResp 0 1 33 0 [7] 100)) 1 in
+  let ovf := mkReply 0 (Some (mkResp 3 1 33 4 [5] 101)) 1 in
+  let last := mkReply 0 (Some (mkResp 0 1 33 9 [] 102)) 1 in   (* empty last frame of the sequence *)
   match run_history 2 true [Later; Sync ovf; Later; Later] [false]
-          [Submit [Submit []]; Pause; Resume; Deliver ack; Deliver ack; Submit []; Submit [];
+          [Submit [Submit []]; Pause; Resume; Deliver ack; Deliver last; Submit []; Submit [];
            Disc true false []; Disc false true []; Deliver ack; DeliverDisc; Submit [Submit [Submit []]; Resume]; Submit []] with
   | Some f => map (fun c => (c_id c, c_kind c,
-                             match r_resp (c_reply c) with Some r => rs_data r | None => [] end))
+                             match r_resp (c_reply c) with
+                             | Some r => (rs_type r, rs_mc r, rs_pid r, rs_data r) | None => (9, 0, 0, []) end))
                   (g_done f) =
-              [(0, 0, [0; 7]); (1, 0, [1; 5; 1; 7]); (2, 0, [2; 7]); (5, 1, []); (3, 2, []); (4, 2, []);
-               (6, 2, []); (7, 2, [])]
+              [(0, 0, (0, 0, 100, [0; 7])); (1, 0, (0, 9, 101, [1; 5])); (2, 0, (0, 0, 100, [2; 7]));
+               (5, 1, (9, 0, 0, [])); (3, 2, (9, 0, 0, [])); (4, 2, (9, 0, 0, []));
+               (6, 2, (9, 0, 0, [])); (7, 2, (9, 0, 0, []))]
               /\ g_conc f = 1 /\ g_psends f = 0 /\ g_rj f = 0 /\ dv_of f = O /\
               map (fun e => (fst (fst e), snd (fst e), map snd (snd e))) (g_runs f) = [(0, true, [0; 1])] /\
               g_ddone f = [(0, 0); (1, 0)] /\ s_nulls f = [1]
